@@ -112,10 +112,31 @@ def innermost_primaite_frame(exc: BaseException) -> str:
     return "?"
 
 
+def recursion_cycle(exc: BaseException) -> str:
+    """For RecursionError (possibly wrapped): the innermost frame is arbitrary, so the crash site is described by the
+    repeating part of the stack: the software-level receive() methods and router forwarding functions in one period."""
+    tb = traceback.extract_tb(exc.__traceback__)
+    names = [f"{fr.filename.split('/primaite/', 1)[1]}:{fr.name}" for fr in tb if "/primaite/" in fr.filename]
+    tail = names[-600:]
+    period = None
+    for p in range(2, 250):
+        if len(tail) >= 2 * p and tail[-p:] == tail[-2 * p : -p]:
+            period = tail[-p:]
+            break
+    if period is None:
+        period = tail[-120:]
+    sw = sorted({n.split("/")[-1] for n in period if n.endswith(":receive") and "/system/" in n and not n.endswith(("arp.py:receive", "icmp.py:receive"))})
+    if sw:
+        return "software-ping-pong[" + ",".join(sw) + "]"
+    fw = sorted({n.split("/")[-1] for n in period if n.endswith((":route_frame", "router.py:process_frame", "arp.py:receive", "icmp.py:receive"))})
+    return "forwarding-cycle[" + ",".join(fw) + "]"
+
+
 def exc_summary(exc: BaseException) -> Dict:
+    is_rec = isinstance(exc, RecursionError) or "RecursionError" in str(exc)[:300]
     return {
-        "type": type(exc).__name__,
-        "where": innermost_primaite_frame(exc),
+        "type": "RecursionError" if is_rec else type(exc).__name__,
+        "where": recursion_cycle(exc) if is_rec else innermost_primaite_frame(exc),
         "text": str(exc)[:500],
         "tb": "".join(traceback.format_exception(type(exc), exc, exc.__traceback__))[-3500:],
     }
